@@ -2,16 +2,16 @@
 ENGINE_TECH = "stateless exhaustive schedule exploration of the real control loop on a virtual asyncio loop (deviation-bounded DFS over gate/env/timer choices)"
 
 CHECKS = {
-    "C01": ("6/C01", "Every gate-release, external-send, timer and snapshot+resume order of generated fan-out / retry / collect / wait workflows (k<=4 events, num_workers 1..4) is executed on the real control loop; live step bodies, runner in_progress sets and stream RUNNING/NOT_RUNNING slots are checked in every quiescent state. A coverage statement over all schedules of these programs, not a sample.",
+    "C01": ("6/C01", "Every gate-release, external-send, timer and snapshot+resume order of generated fan-out / retry / collect / wait workflows (k<=4 events, num_workers 1..4; incl. one answer that resolves every waiter of a step in a single tick) is executed on the real control loop; live step bodies, runner in_progress sets and stream RUNNING/NOT_RUNNING slots are checked in every quiescent state. A coverage statement over all schedules of these programs, not a sample.",
             "Bounded small-scope claim: programs and bounds listed in the evidence file; sync (thread-pool) steps not covered.", ENGINE_TECH),
 }
 
 CHECKS.update({
-    "C03": ("6/C03", "All schedules (gate releases, external sends, timer firings) of the engine catalog plus idle-specific programs; at the instant an idle announcement is written the runner's queues, in-progress sets, retry heap, tick buffer and mailbox are inspected; work conservation checked in every quiescent live state; every retry wake-up must be delivered at the virtual instant it was scheduled for (programs include a workflow timeout plus two staggered retry delays).",
+    "C03": ("6/C03", "All schedules (gate releases, external sends, timer firings) of the engine catalog plus idle-specific programs; at the instant an idle announcement is written the runner's queues, in-progress sets, retry heap, tick buffer and mailbox are inspected; work conservation checked in every quiescent live state; every retry wake-up must be delivered at the virtual instant it was scheduled for (programs include a workflow timeout plus two staggered retry delays, and busy-tick programs in which one tick keeps the loop busy until after the next scheduled wake-up); a live run may never end up quiescent with an undelivered wake-up.",
             "Three genuine defects are recorded in known_findings.json (idle announced with mail in the mailbox / during a retry delay); any other violation is reported.", ENGINE_TECH),
-    "C04": ("6/C04", "21 outcome causes (stops, races, raises, handler failure, non-event return, failing user retry code, cancel and timeout at every quiescent point), stream writers racing every kind of end, continued / resumed runs, a run id reused for a later run, cancel_run() of a run queued behind num_concurrent_runs x all schedules; each maximal execution is checked for exactly one outcome, one matching terminal event, nothing after it, a terminating stream consumer, and a stream that equals what the run published.",
+    "C04": ("6/C04", "21 outcome causes (stops, races, raises, handler failure, non-event return, failing user retry code, cancel and timeout at every quiescent point), stream writers racing every kind of end, continued / resumed runs, a run id reused for a later run, cancel_run() of a run queued behind num_concurrent_runs, waits with timeouts that are answered (stale timer fires later) or time out x all schedules; each maximal execution is checked for exactly one outcome, one matching terminal event, nothing after it, a terminating stream consumer, and a stream that equals what the run published.",
             "Bounded small-scope claim; deviation bound 4 on the largest race program in the quick tier.", ENGINE_TECH),
-    "C11": ("6/C11", "At every quiescent point of every schedule of the engine catalog (incl. resumed runs, and runs continued from the context of a run that ended with work left over) the live runner state is compared with rebuild_state_from_ticks(init_state, recorded ticks) and with ctx.to_dict()/running_steps.",
+    "C11": ("6/C11", "At every quiescent point of every schedule of the engine catalog (incl. resumed runs, runs continued from the context of a run that ended with work left over, and a run one of whose worker tasks ends with CancelledError) the live runner state is compared with rebuild_state_from_ticks(init_state, recorded ticks) and with ctx.to_dict()/running_steps.",
             "Timestamps masked, as the property allows.", ENGINE_TECH),
     "C35": ("6/C35", "All schedules of the engine catalog; per processed tick PREPARING publications are compared with the queue growth, open RUNNING slots are compared with the runner's in-progress set in every quiescent live state, per-slot (RUNNING NOT_RUNNING)* language, InputRequiredEvent published once.",
             "Telemetry is tied to the runner's queue / in_progress sets (the anchors named by the property).", ENGINE_TECH),
@@ -19,26 +19,26 @@ CHECKS.update({
 
 GRID_TECH = "exhaustive enumeration of a finite configuration grid, each case executed on the real engine under the virtual clock and compared with an independent reference"
 CHECKS.update({
-    "C05": ("6/C05", "Complete grid of retry policies (attempt/delay budgets as numbers or timedeltas, flat and nested |,& compositions - thorough: all pairs of 12 atoms -, retryable vs not, legacy constructors, seedless custom policy) x step durations x delays x clock configurations (wall/monotonic bases differ/equal, wall-clock adapter) x failure-event kind; executions, retry_info and failure-event fields are compared with a reference computed from really elapsed virtual time.",
+    "C05": ("6/C05", "Complete grid of retry policies (attempt/delay budgets as numbers or timedeltas - sub-second and longer than a day -, flat and nested |,& compositions - thorough: all pairs of 12 atoms -, retryable vs not, legacy constructors, seedless custom policy) x step durations x delays x clock configurations (wall/monotonic bases differ/equal, wall-clock adapter) x failure-event kind; executions, retry_info and failure-event fields are compared with a reference computed from really elapsed virtual time.",
             "wait_fixed delays only (delay indexing is C06). The clock defect found by this check was repaired (fix: c88b71f).", GRID_TECH),
     "C06": ("6/C06", "Every listed wait-strategy instance (incl. timedelta-configured ones and exponential bases that overflow a double) x 1..4(6) retries; the gap between the k-th failure and the k-th retry of a real failing step on the virtual clock is compared with the tenacity-documented delay.",
             "One genuine defect (1-based count into 0-based strategies) recorded as known findings per strategy shape; other shapes/clauses still alarm.", GRID_TECH),
 })
 
 CHECKS.update({
-    "C02": ("6/C02", "Multi-accept graphs (overlapping exact types, subclass event, targeted/broadcast ctx.send_event, returned events, external sends, a waiting step that also accepts the awaited type, field-for-field equal events queued behind a saturated step) x all schedules within a deviation bound; per add-event tick the runner-state delta is compared with a dict router; body entries and UnhandledEvent reports are counted after a fan-in of every delivery.",
+    "C02": ("6/C02", "Multi-accept graphs (overlapping exact types, subclass event, targeted/broadcast ctx.send_event, returned events, external sends, a waiting step that also accepts the awaited type, field-for-field equal events queued behind a saturated step, a step that fails and is retried while a sibling accepts the same type) x all schedules within a deviation bound; per add-event tick the runner-state delta is compared with a dict router; body entries and UnhandledEvent reports are counted after a fan-in of every delivery.",
             "Deviation bound 2-3 in the quick tier (stated per program in the evidence). Fix 068b360 repaired the targeted-waiter defect this check found.", ENGINE_TECH),
 })
 
 CHECKS.update({
-    "C09": ("6/C09", "Expected lists [A,B],[A,A,B],[A,B,C],[A,A] x arrival multisets (surplus events, value-equal events tracked by identity, two rounds) x collector num_workers 1..4 x every completion order of the collecting invocations (+ a collecting step that fails once and is retried, + one that suspends in wait_for_event while it holds a full set); the multiset of returned lists must equal the list-buffer reference on some serial order of the arrivals and no event may be in two lists.",
+    "C09": ("6/C09", "Expected lists [A,B],[A,A,B],[A,B,C],[A,A] x arrival multisets (surplus events, value-equal events tracked by identity, two rounds, a slow invocation whose buffer snapshot is overtaken by a completed set and a longer next round) x collector num_workers 1..4 x every completion order of the collecting invocations (+ a collecting step that fails once and is retried, + one that suspends in wait_for_event while it holds a full set); the multiset of returned lists must equal the list-buffer reference on some serial order of the arrivals and no event may be in two lists.",
             "Linearizability against the sequential semantics, which the num_workers=1 programs bind to the implementation. One genuine defect (double completion from one snapshot) recorded.", ENGINE_TECH),
-    "C10": ("6/C10", "Waits with/without requirements, timeouts, explicit/implicit ids (also two waits whose default ids differ only in requirement values), two sequential waits, a step that does other work before it waits, concurrent inputs x response scripts (matching, duplicate, non-matching, subclass, early, late) x serialize+resume at every quiescent point x all arrival / timer / completion orders within the deviation bound.",
+    "C10": ("6/C10", "Waits with/without requirements, timeouts, explicit/implicit ids (also two waits whose default ids differ only in requirement values), two sequential waits, a step that does other work before it waits, concurrent inputs x response scripts (matching, duplicate, non-matching, subclass, an unrelated class with the same qualified name, early, late) x serialize+resume at every quiescent point x all arrival / timer / completion orders within the deviation bound.",
             "Two genuine root causes (match while a replay is in flight; rehydration of requirement waiters after resume) are recorded with root-cause context in the witness; violations outside those contexts or clauses alarm.", ENGINE_TECH),
 })
 
 CHECKS.update({
-    "C12": ("6/C12", "Deterministic workflows (chain+store, fan-in, retries with zero/positive delay incl. exhaustion, catch_error budgets, waits) x every schedule x one (thorough and one quick program: two) ctx.to_dict()->JSON->from_dict resume(s) at every quiescent point; result, store, retry numbers of re-executed work, total executions and round-trip stability compared with the uninterrupted runs (first shown to agree on all schedules).",
+    "C12": ("6/C12", "Deterministic workflows (chain+store, fan-in, retries with zero/positive delay incl. exhaustion, catch_error budgets, waits, an order-sensitive single-worker queue) x every schedule x one (thorough and one quick program: two) ctx.to_dict()->JSON->from_dict resume(s) at every quiescent point - the context of the running run followed by a hard stop, or handler.cancel_run() first and the context of the cancelled run -; result, store, retry numbers of re-executed work, total executions and round-trip stability compared with the uninterrupted runs (first shown to agree on all schedules).",
             "Fix 8340a80 repaired the lost retry count / recovery budget of in-progress work; a delayed retry lost by to_dict() and the waiter rehydration defect remain recorded findings.", ENGINE_TECH),
 })
 
@@ -141,12 +141,12 @@ CHECKS.update({
 
 CRASH_TECH = "exhaustive crash-point enumeration on the real implementation: for every explored schedule the process is stopped after every persisted tick (no further callback runs), a fresh runtime stack is started on the surviving store, and the recovered run is compared with the uninterrupted reference"
 CHECKS.update({
-    "C13": ("6/C13", "8 deterministic workflows (3-step chain, fan-out/fan-in with collect_events, zero-delay retries, catch_error recovery, waiter + external response without / with requirements, a step failure that ends the run, a run the client cancels at any point) on the real server stack (ServerRuntimeDecorator(IdleReleaseDecorator(PersistenceDecorator(BasicRuntime))) + _WorkflowService) over MemoryWorkflowStore (instance survives) and SqliteWorkflowStore (file survives); the process is stopped right after the k-th persisted tick for every k up to the length of the log, a fresh stack resumes through PersistenceDecorator.launch(), and all schedules of both phases within the deviation bound are explored; the resumed handler must end completed with the uninterrupted result and a log that already contains the terminal tick must be finalized without running a step.",
-            "Four genuine root causes are recorded as known findings with root-cause witnesses (step output not yet queued, sent event not yet persisted, spuriously idle-flagged handler skipped at startup, non-matching response replayed against a requirement-less waiter); fixes 31a2af2 and bcfdba2 repaired two further defects this check found. Any violation outside those contexts alarms.", CRASH_TECH),
+    "C13": ("6/C13", "8 deterministic workflows (3-step chain, fan-out/fan-in with collect_events, zero-delay retries, catch_error recovery, waiter + external response without / with requirements, a step failure that ends the run, a run the client cancels at any point) on the real server stack (ServerRuntimeDecorator(IdleReleaseDecorator(PersistenceDecorator(BasicRuntime))) + _WorkflowService) over MemoryWorkflowStore (instance survives) and SqliteWorkflowStore (file survives); the process is stopped right after the k-th persisted tick for every k up to the length of the log, a fresh stack resumes through PersistenceDecorator.launch(), and all schedules of both phases within the deviation bound are explored; the resumed handler must end completed with the uninterrupted result and a log that already contains the terminal tick must be finalized without running a step. A further program answers a waiting, busy run only after the restart, on a store whose reads suspend (network-backed store model), so the answer can arrive at any point of the start-up resume.",
+            "Four genuine root causes are recorded as known findings with root-cause witnesses (step output not yet queued, sent event not yet persisted, spuriously idle-flagged handler skipped at startup, non-matching response replayed against a requirement-less waiter); fixes 31a2af2, bcfdba2 and b75be9a repaired three further defects this check found. Any violation outside those contexts alarms.", CRASH_TECH),
 })
 
 CHECKS.update({
-    "C15": ("6/C15", "12 outcome programs (success, two workers racing to stop, an engine-side failure (un-persistable event), cancel of a waiting run before / after its idle release on both stacks, step failure without / after retries, @catch_error handler that recovers / fails itself, workflow timeout, cancel_handler at every quiescent point, cancel racing the timeout) on the real server stack over MemoryWorkflowStore and SqliteWorkflowStore x 0-2 transient failures of handler-record writes and of event-log writes at explorer-chosen attempts (inside the [0.5, 3] s backoff budget) x all schedules within the deviation bound incl. timer firings; every status written is logged (terminal never followed by running) and the final handler record is compared with how the engine's run task actually ended.",
+    "C15": ("6/C15", "13 outcome programs (success, two workers racing to stop, an engine-side failure (un-persistable event) of a fresh run / of a run reloaded after an idle release / of a run resumed by a restarted server, cancel of a waiting run before / after its idle release on both stacks, step failure without / after retries, @catch_error handler that recovers / fails itself, workflow timeout, cancel_handler at every quiescent point, cancel racing the timeout) on the real server stack over MemoryWorkflowStore and SqliteWorkflowStore x 0-2 transient failures of handler-record writes and of event-log writes at explorer-chosen attempts (inside the [0.5, 3] s backoff budget) x all schedules within the deviation bound incl. timer firings; every status written is logged (terminal never followed by running) and the final handler record is compared with how the engine's run task actually ended.",
             "Store faults are bounded to what _retry_store_write is documented to absorb (<= 2 consecutive); a store that keeps failing is outside the property. The idle-release timer never fires here (C26/C36). Fixes f78db87 and 7a6f378 repaired the two unretried store writes this check found.", ENGINE_TECH.replace("the real control loop", "the real server stack")),
 })
 
@@ -161,7 +161,7 @@ CHECKS.update({
 })
 
 CHECKS.update({
-    "C14": ("6/C14", "A step waiting out a retry delay D=8 s and a step whose wait_for_event timeout T=8 s is pending, on the real server stack over MemoryWorkflowStore / SqliteWorkflowStore with idle_timeout in {D/4, D, 4D} x {no restart, process stop after each of the first 7 persisted ticks + restart on the surviving store} x all orders of idle-timer, release and retry / timeout timer firings up to the horizon (every timer below 1000 s fired); at the horizon the handler must be completed with the retried / timed-out result.",
+    "C14": ("6/C14", "A step waiting out a retry delay D=8 s and a step whose wait_for_event timeout T=8 s is pending, on the real server stack over MemoryWorkflowStore / SqliteWorkflowStore with idle_timeout in {D/4, D, 4D} x {no restart, process stop after each of the first 7 persisted ticks + restart on the surviving store} x all orders of idle-timer, release and retry / timeout timer firings up to the horizon (every timer below 1000 s fired), plus slow-tick programs in which one tick keeps the loop busy until after the pending timer's due time; at the horizon the handler must be completed with the retried / timed-out result.",
             "Three known findings (timers live only in the runner's memory: lost on release and on restart; idle-flagged handlers are skipped at startup) cover every configuration in which the run is released or restarted before / around the timer; the remaining configurations (timer fires first, no restart) must hold and alarm otherwise.", CRASH_TECH),
 })
 
